@@ -16,6 +16,15 @@
     J'^T R' = sum rho' J^T R and J'^T J' = sum rho' J^T J + 2 rho'' J^T R R^T J computed from the
     implementation's outputs; kernel clauses (closed form, zero at zero, finite, monotone, rejects
     negative) on the implementation's values.
+(E) histories, non-mutation, call forms, memory layouts (the property holds "for any R, J" the caller built, on every
+    call): every judged kernel / corrector call is the 2nd or later call on its object after a call with other
+    arguments; one kernel object is shared by compute_grads, FastTriggs and Triggs; the SAME pair of tensors (R, J)
+    is handed to FastTriggs, Triggs, FastTriggs, Triggs without cloning; every tensor argument (and the base that
+    owns the storage of a view) is snapshotted before and compared bit for bit after each call, with shape / stride
+    / requires_grad (keys mutation:<function>); the 1st and the 2nd result on the same tensors must be equal
+    (keys <function>:reuse); the law checker and the model judge the LATER calls against private copies of the
+    data; R, J, x rotate through contiguous / transposed / strided-slice-of-a-larger-base / expand()ed stride-0 /
+    empty layouts and the calls through keyword, positional, .forward and torch.no_grad() forms.
 The witnesses of the three defects repaired in /repo (e6f8307 Scale accepted negative input, 298dcfc
 Triggs dropped R on masked blocks, af4d69c Triggs raised for constant-slope kernels) are directed
 regression cases of every run.
@@ -35,6 +44,8 @@ RULE = ('kernels: (kernel, p1, p2, x) with delta log-uniform in [1e-3, 1e3] (Sca
         'Huber on perfect squares (below / at / above threshold), Scale, negative inputs, rejected parameters; a case is non-trivial when x != 0; '
         'distinct by value.  correctors: (corrector, kernel, R of shape batch+(d,), J of shape (N d, p)), d in 1..6, p in 1..4, entries = small '
         'dyadics / gaussians / zero blocks / blocks exactly at the Huber threshold; one case per block and corrector, non-trivial when R_i != 0; '
+        'every judged call is the 2nd+ call on its object and on the SAME tensors (FastTriggs, Triggs, FastTriggs, Triggs without cloning); arguments and view bases '
+        'snapshotted and compared bit for bit after every call; layouts contiguous / transposed / strided / expanded / empty, forms keyword / positional / forward / no_grad rotate; '
         'tolerance %d eps relative to the magnitude of the intermediate terms of the coded formula; law tolerance %g relative' % (K_EPS, LAW_TOL))
 
 
@@ -195,6 +206,112 @@ def kernel_law(kid, p1, p2, x, y, g1, g2):
     return '; '.join(bad) if bad else None
 
 
+
+# ------------------------------------------------------------------ (E) layouts, snapshots, call forms
+LAYOUTS = ['contig', 'transposed', 'strided', 'expanded']
+FORMS = ['kw', 'pos', 'forward', 'kw-nograd', 'pos-nograd']
+JUNK = 777.25
+
+
+def laid_out(torch, vals, shape, lay):
+    """(tensor with the given values and shape in memory layout `lay`, the contiguous tensor that owns its
+    storage).  'expanded' needs equal rows along dim -2 (else contiguous); 'transposed' needs >= 2 dims."""
+    t = torch.tensor(vals, dtype=torch.float64).reshape(shape)
+    if lay == 'transposed' and t.dim() >= 2:
+        base = t.transpose(-1, -2).contiguous()
+        return base.transpose(-1, -2), base
+    if lay == 'strided' and t.dim() >= 1 and t.numel() > 0:
+        base = torch.full([2 * n + 1 for n in t.shape], JUNK, dtype=torch.float64)
+        idx = tuple(slice(1, 2 * n, 2) for n in t.shape)
+        base[idx] = t
+        return base[idx], base
+    if lay == 'expanded' and t.dim() >= 2 and t.shape[-2] >= 2 and bool((t == t[..., :1, :]).all()):
+        base = t[..., :1, :].contiguous()
+        return base.expand(t.shape), base
+    return t, t
+
+
+def tensor_meta(t):
+    return (tuple(t.shape), tuple(t.stride()), t.storage_offset(), bool(t.requires_grad), str(t.dtype), t.grad is None)
+
+
+def snapshot(named):
+    """named = [(name, tensor, base)]"""
+    return [(n, t, b, b.detach().clone(), tensor_meta(t)) for n, t, b in named]
+
+
+def changed(torch, snap):
+    """texts, one per argument that is not bit for bit what it was (or whose shape / stride / flags changed)"""
+    out = []
+    for n, t, b, s, m in snap:
+        bd = b.detach()
+        if tuple(bd.shape) != tuple(s.shape) or not bd.is_contiguous():
+            out.append('%s: the storage was resized / restrided (%s -> %s)' % (n, tuple(s.shape), tuple(bd.shape)))
+        elif not torch.equal(bd.view(torch.int64), s.view(torch.int64)):
+            w = (bd.view(torch.int64) != s.view(torch.int64)).nonzero()[0].tolist()
+            out.append('%s was modified in place: entry %s of its storage was %r and is %r after the call'
+                       % (n, w, float(s[tuple(w)]), float(bd[tuple(w)])))
+        elif tensor_meta(t) != m:
+            out.append('%s: (shape, stride, offset, requires_grad, dtype, grad is None) changed from %s to %s' % (n, m, tensor_meta(t)))
+    return out
+
+
+def call_form(torch, cor, form, R, J):
+    import contextlib
+    with (torch.no_grad() if form.endswith('nograd') else contextlib.nullcontext()):
+        if form.startswith('pos'):
+            return cor(R, J)
+        if form.startswith('forward'):
+            return cor.forward(R, J)
+        return cor(R=R, J=J)
+
+
+def same_bits(torch, a, b):
+    a, b = a.detach().contiguous(), b.detach().contiguous()
+    return a.shape == b.shape and a.dtype == b.dtype and (a.dtype != torch.float64 or torch.equal(a.view(torch.int64), b.view(torch.int64)))
+
+
+def kernel_tensor(pp, torch, k, name, xs, shape, lay):
+    """the kernel object k on ONE tensor holding xs: warm-up call with other arguments, then two calls on the same
+    tensor.  Returns (ys of the 2nd call or None, [(key, text)])."""
+    n = len(xs)
+    if lay == 'expanded':
+        base = torch.tensor(xs, dtype=torch.float64).reshape(1, n)
+        xt = base.expand(3, n)
+    else:
+        xt, base = laid_out(torch, xs, shape, lay)
+    finds = []
+    try:
+        k(torch.tensor([[0.5], [2.0], [0.0]], dtype=torch.float64))
+    except Exception:  # noqa  (judged elsewhere)
+        pass
+    snap = snapshot([('input', xt, base)])
+    ys = []
+    for rnd in (1, 2):
+        try:
+            y = k(xt)
+        except Exception as e:  # noqa
+            finds.append(('kernel:%s:raises' % name, 'call %d on the same %s tensor %r raised %r' % (rnd, lay, xs, e)))
+            return None, finds
+        ws = changed(torch, snap)
+        for w in ws:
+            finds.append(('mutation:kernel.%s.forward' % name, 'call %d of %s.forward on a %s tensor holding %r: %s' % (rnd, name, lay, xs, w)))
+        if ws:
+            snap = snapshot([('input', xt, base)])
+        if not hasattr(y, 'shape') or tuple(y.shape) != tuple(xt.shape):
+            finds.append(('kernel:%s:shape' % name, '%s.forward returned shape %s for an input of shape %s' % (name, tuple(getattr(y, 'shape', ())), tuple(xt.shape))))
+            return None, finds
+        ys.append(y.detach().clone())
+    if not same_bits(torch, ys[0], ys[1]):
+        finds.append(('kernel:%s:reuse' % name, 'two calls of %s.forward on the same %s tensor %r returned %r and %r' % (name, lay, xs, ys[0].reshape(-1).tolist(), ys[1].reshape(-1).tolist())))
+    y = ys[1]
+    if lay == 'expanded':
+        if not (same_bits(torch, y[0], y[1]) and same_bits(torch, y[0], y[2])):
+            finds.append(('kernel:%s:layout' % name, '%s.forward on the expand()ed rows %r returned different rows %r' % (name, xs, y.tolist())))
+        y = y[2]
+    return y.reshape(-1).tolist(), finds
+
+
 # ------------------------------------------------------------------ (A) exact block
 def exact_cases(ctx, pp, torch):
     """[(kid, p1, p2, x)] with rational arithmetic or a raise"""
@@ -231,7 +348,10 @@ def impl_kernel_point(pp, torch, kid, p1, p2, x):
         y = k(torch.tensor([x], dtype=torch.float64))
     except AssertionError:
         return [0.0], 'forward-raises'
-    g1, g2 = autograd12(torch, k, [x])
+    try:
+        g1, g2 = autograd12(torch, k, [x])
+    except Exception as e:  # noqa  (a kernel that returns a value must be differentiable by autograd)
+        return [1.0, float(y[0]), float('nan'), float('nan')], 'autograd-raises: %r' % (e,)
     return [1.0, float(y[0]), g1[0], 0.0 if g2 is None else g2[0]], 'value'
 
 
@@ -240,6 +360,10 @@ def run_exact(ctx, pp, torch):
     lits, meta = [], []
     for i, (kid, p1, p2, x) in enumerate(cs):
         out, how = impl_kernel_point(pp, torch, kid, p1, p2, x)
+        if how.startswith('autograd-raises'):
+            ctx.violation('kernel:%s:autograd-raises' % KNAMES[kid], '%s(%r,%r)(%r) returns %r but torch.autograd.grad of it raises: %s' % (KNAMES[kid], p1, p2, x, out[1], how),
+                          dict(kind='kernel-value', kid=kid, p1=p1, p2=p2, x=x))
+            how = 'value'
         br = 'exact:%s:%s' % (KNAMES[kid], how if how != 'value' else ('neg' if x < 0 else 'zero' if x == 0 else
                               ('below' if kid == 0 and x < p1 * p1 else 'at' if kid == 0 and x == p1 * p1 else 'above' if kid == 0 else 'pos')))
         ctx.case(('exact', kid, p1, p2, x), nontrivial=x != 0, branch=br,
@@ -323,8 +447,15 @@ def run_kernel_enclosure(ctx, pp, torch):
             if not xs:
                 continue
             shape = rng.choice([(len(xs),), (1, len(xs)), (len(xs), 1)])
+            lay = LAYOUTS[(t + kid) % len(LAYOUTS)]
+            tens = dict(kid=kid, p1=p1, p2=p2, xs=xs, shape=list(shape), lay=lay)
+            ys, finds = kernel_tensor(pp, torch, k, KNAMES[kid], xs, shape, lay)      # 2nd call on k, on a tensor it has seen
+            ctx.count('kernel-layout:' + lay)
+            for key, text in finds:
+                ctx.violation(key, text, dict(tens, kind='kernel-tensor', key=key))
+            if ys is None:
+                continue
             try:
-                ys = k(torch.tensor(xs, dtype=torch.float64).reshape(shape)).reshape(-1).tolist()
                 g1s, g2s = autograd12(torch, k, xs)
             except Exception as e:  # the kernels must return on non-negative input
                 ctx.violation('kernel:%s:raises' % KNAMES[kid], '%s(%r,%r) raised %r on %r' % (KNAMES[kid], p1, p2, e, xs),
@@ -344,7 +475,7 @@ def run_kernel_enclosure(ctx, pp, torch):
                 reg = 'zero' if x == 0 else ('below' if x < p1 * p1 else 'above') if kid == 0 else ('large' if x >= 1e3 else 'pos')
                 ctx.case(('kenc', kid, p1, p2, x), nontrivial=x != 0, branch='enclosure:%s:%s' % (KNAMES[kid], reg),
                          sample=dict(kernel=KNAMES[kid], p1=p1, p2=p2, x=x, value=y, d1=g1, d2=g2) if i % 37 == 5 else None)
-                m = dict(kind='kernel-value', kid=kid, p1=p1, p2=p2, x=x, y=y, g1=g1, g2=g2)
+                m = dict(kind='kernel-value', kid=kid, p1=p1, p2=p2, x=x, y=y, g1=g1, g2=g2, tensor=tens, j=j)
                 meta.append(m)
                 if not all(math.isfinite(v) for v in (y, g1, 0.0 if g2 is None else g2)):
                     ctx.mismatch('kernel-enclosure', m)
@@ -509,29 +640,139 @@ def build_kernel(pp, torch, spec):
     return user_kernel(torch, label) if isinstance(kind, str) else make_kernel(pp, kind, p1, p2)
 
 
-def run_corrector(pp, torch, spec, cname, Rt, Jt):
-    """real corrector; returns (R', J') as nested lists per block, or ('raises', exception text)"""
-    k = build_kernel(pp, torch, spec)
-    cor = getattr(pp.optim.corrector, cname)(k)
-    try:
-        Rp, Jp = cor(R=Rt.clone(), J=Jt.clone())
-    except RuntimeError as e:
-        return 'raises', str(e)[:200]
+def as_blocks(torch, res, Rt, Jt):
+    """the corrector's return value as nested lists per block, or ('raises', text) when it is not a pair of
+    tensors of the shapes of R and J"""
     d = Rt.shape[-1]
-    return Rp.detach().reshape(-1, d).tolist(), Jp.detach().reshape(-1, d, Jt.shape[-1]).tolist()
+    ok = isinstance(res, (tuple, list)) and len(res) == 2 and all(hasattr(v, 'shape') for v in res)
+    if not ok or tuple(res[0].shape) != tuple(Rt.shape) or tuple(res[1].shape) != tuple(Jt.shape):
+        return 'raises', 'returned %s for R of shape %s and J of shape %s' % (
+            [tuple(v.shape) for v in res] if ok else type(res).__name__, tuple(Rt.shape), tuple(Jt.shape))
+    return res[0].detach().reshape(-1, d).tolist(), res[1].detach().reshape(-1, d, Jt.shape[-1]).tolist()
 
 
-def grads_of(pp, torch, spec, Rt):
-    """(x, g1, g2) per block exactly as Triggs.compute_grads returns them (g2 = 0 where rho' is a constant
-    of the autograd graph); g2 None when compute_grads raises"""
+def corrector_history(pp, torch, spec, Rb, Jb, batch, layR='contig', layJ='contig', form='kw'):
+    """One history on ONE pair of tensors (R, J) in the given memory layouts, never cloned: one kernel object shared
+    by Triggs.compute_grads, FastTriggs and Triggs; each corrector object is first called with other arguments; then
+    FastTriggs, Triggs, FastTriggs, Triggs on the same (R, J).  Arguments (and the bases of views) are compared bit
+    for bit after every call.  Returns dict(grads=(x, g1, g2|None), first={cname: out}, outs={cname: out of the 2nd
+    call}, findings=[(key, text, cname)]); out = (R', J') nested per block or ('raises', text)."""
+    nb, d, p = len(Rb), len(Rb[0]), len(Jb[0][0])
+    Rt, Rbase = laid_out(torch, Rb, tuple(batch) + (d,), layR)
+    Jt, Jbase = laid_out(torch, Jb, (nb * d, p), layJ)
+    snap = snapshot([('R', Rt, Rbase), ('J', Jt, Jbase)])
+    where = 'R %s %s, J %s, call form %s' % (tuple(Rt.shape), layR, layJ, form)
+    finds = []
     k = build_kernel(pp, torch, spec)
     try:
-        x, g1, g2 = pp.optim.corrector.Triggs(k).compute_grads(Rt.clone())
-        return x.reshape(-1).tolist(), g1.reshape(-1).tolist(), g2.reshape(-1).tolist()
-    except RuntimeError:
+        x, g1, g2 = pp.optim.corrector.Triggs(k).compute_grads(Rt)
+        grads = (x.reshape(-1).tolist(), g1.reshape(-1).tolist(), g2.reshape(-1).tolist())
+    except Exception as e0:  # noqa
         xs = Rt.detach().square().sum(-1).reshape(-1).tolist()
-        g1, _ = autograd12(torch, k, xs)
-        return xs, g1, None
+        try:
+            grads = (xs, autograd12(torch, k, xs)[0], None)
+        except Exception as e:  # noqa
+            grads = (xs, [float('nan')] * len(xs), None)
+            finds.append(('kernel:%s:autograd-raises' % spec[0], 'neither Triggs.compute_grads (%r) nor torch.autograd.grad (%r) can differentiate the kernel %s(%r, %r) at x = %r'
+                          % (e0, e, spec[0], spec[2], spec[3], xs), 'Triggs'))
+    ws = changed(torch, snap)
+    for w in ws:
+        finds.append(('mutation:Triggs.compute_grads', 'Triggs(%s).compute_grads(R) (%s): %s' % (spec[0], where, w), 'Triggs'))
+    if ws:
+        snap = snapshot([('R', Rt, Rbase), ('J', Jt, Jbase)])
+    cors = {}
+    for cname in ('FastTriggs', 'Triggs'):
+        cors[cname] = getattr(pp.optim.corrector, cname)(k)
+        try:                                              # other problems first: (2 blocks, d = 3), p = 2, and one of the
+            call_form(torch, cors[cname], 'kw', torch.tensor([[0.5, -1.0, 2.0], [0.0, 0.0, 0.0]], dtype=torch.float64),   # same shapes, other values
+                      torch.tensor([[1.0, 0.0], [0.5, 2.0], [-1.0, 1.0], [3.0, 1.0], [0.0, -2.0], [1.0, 1.0]], dtype=torch.float64))
+            call_form(torch, cors[cname], form, Rt.detach().clone() * 0.75 + 0.125, 1.5 - Jt.detach().clone())
+        except Exception:  # noqa  (judged on its own tensors elsewhere)
+            pass
+    rounds = []
+    for rnd in (1, 2):
+        outs = {}
+        for cname in ('FastTriggs', 'Triggs'):
+            try:
+                outs[cname] = as_blocks(torch, call_form(torch, cors[cname], form, Rt, Jt), Rt, Jt)
+            except Exception as e:  # noqa
+                outs[cname] = ('raises', ('%s: %s' % (type(e).__name__, e))[:200])
+            ws = changed(torch, snap)
+            for w in ws:
+                finds.append(('mutation:%s.forward' % cname, 'call %d of %s(%s) on the same tensors (%s): %s'
+                              % (2 * rnd - (cname == 'FastTriggs'), cname, spec[0], where, w), cname))
+            if ws:                                        # blame only the call that changed it
+                snap = snapshot([('R', Rt, Rbase), ('J', Jt, Jbase)])
+        rounds.append(outs)
+    for cname in ('FastTriggs', 'Triggs'):
+        if repr(rounds[0][cname]) != repr(rounds[1][cname]):
+            u, v = rounds[0][cname], rounds[1][cname]
+            if 'raises' in (u[0], v[0]):
+                what = 'first %s, then %s' % (u[1] if u[0] == 'raises' else 'returned', v[1] if v[0] == 'raises' else 'returned')
+            elif u[0] != v[0]:
+                what = "returned R' = %s, then R' = %s" % (u[0], v[0])
+            else:
+                what = "returned J' = %s, then J' = %s" % (u[1], v[1])
+            finds.append(('%s.forward:reuse' % cname, '%s(%s) called twice on the same tensors (%s; in between: the other corrector on the same tensors) %s'
+                          % (cname, spec[0], where, what), cname))
+    # the caller updates ITS tensors in place (exactly: R/2, -2 J) and calls the same objects again
+    with torch.no_grad():
+        Rbase.mul_(0.5)
+        Jbase.mul_(-2.0)
+    Rb3, Jb3 = Rt.detach().reshape(nb, d).tolist(), Jt.detach().reshape(nb, d, p).tolist()
+    third = {}
+    for cname in ('FastTriggs', 'Triggs'):
+        try:
+            third[cname] = as_blocks(torch, call_form(torch, cors[cname], form, Rt, Jt), Rt, Jt)
+        except Exception as e:  # noqa
+            third[cname] = ('raises', ('%s: %s' % (type(e).__name__, e))[:200])
+    seen, uniq = set(), []
+    for f in finds:                                       # report each key once
+        if f[0] not in seen:
+            seen.add(f[0])
+            uniq.append(f)
+    return dict(grads=grads, first=rounds[0], outs=rounds[1], third=third, Rb3=Rb3, Jb3=Jb3, findings=uniq, shapeR=tuple(Rt.shape), contigR=Rt.is_contiguous())
+
+
+def judge_history(pp, torch, spec, Rb, Jb, batch, layR='contig', layJ='contig', form='kw'):
+    """corrector_history + the law checker on every call's outputs, against the private data Rb, Jb:
+    (history, [(key, text, cname)])"""
+    h = corrector_history(pp, torch, spec, Rb, Jb, batch, layR, layJ, form)
+    finds = list(h['findings'])
+    g2s = h['grads'][2]
+    for rnd, outs in ((2, h['outs']), (1, h['first'])):
+        for cname in ('FastTriggs', 'Triggs'):
+            out = outs[cname]
+            if out[0] == 'raises':
+                if rnd == 2 or h['outs'][cname][0] != 'raises':
+                    finds.append(('%s.forward:raises' % cname, "%s(%s) raised / returned no (R', J') on call %d on the same tensors (R %s, J %s, form %s): %s"
+                                  % (cname, spec[0], 2 * rnd - (cname == 'FastTriggs'), layR, layJ, form, out[1][:120]), cname))
+                continue
+            if rnd == 1 and repr(out) == repr(h['outs'][cname]):
+                continue                                  # identical to the judged 2nd call
+            fast = outs['FastTriggs']
+            for key, text in law_check(spec, cname, Rb, Jb, out, fast, g2s):
+                finds.append((key, 'call %d on the same tensors (R %s, J %s, form %s): %s' % (2 * rnd - (cname == 'FastTriggs'), layR, layJ, form, text), cname))
+    intact = (h['Rb3'] == [[0.5 * v for v in r] for r in Rb] and h['Jb3'] == [[[-2.0 * e for e in row] for row in blk] for blk in Jb])
+    if not intact and not any(f[0].startswith('mutation:') for f in finds):
+        finds.append(('mutation:corrector.forward', 'after the calls and the in-place update R *= 0.5, J *= -2 the tensors hold R = %s, J = %s' % (h['Rb3'], h['Jb3']), None))
+    for cname in ('FastTriggs', 'Triggs'):               # after the in-place update of R, J by the caller
+        out = h['third'][cname]
+        if h['outs'][cname][0] == 'raises' or not intact:  # (arguments changed by a call: reported above, the data are no longer the caller's)
+            continue
+        if out[0] == 'raises':
+            finds.append(('%s.forward:raises' % cname, "%s(%s) raised / returned no (R', J') when called again after the caller's in-place update R *= 0.5, J *= -2 (R %s, J %s, form %s): %s"
+                          % (cname, spec[0], layR, layJ, form, out[1][:120]), cname))
+            continue
+        for key, text in law_check(spec, cname, h['Rb3'], h['Jb3'], out, h['third']['FastTriggs'], None):
+            finds.append((key, "call 5/6 on the same objects and tensors after the caller's in-place update R *= 0.5, J *= -2 (R %s, J %s, form %s; now R = %s): %s"
+                          % (layR, layJ, form, h['Rb3'], text), cname))
+    seen, uniq = set(), []
+    for f in finds:
+        if (f[0], f[2]) not in seen:
+            seen.add((f[0], f[2]))
+            uniq.append(f)
+    return h, uniq
 
 
 def law_check(spec, cname, Rb, Jb, out, fast_out=None, g2s=None):
@@ -583,15 +824,21 @@ def law_check(spec, cname, Rb, Jb, out, fast_out=None, g2s=None):
     return res
 
 
-def corrector_tensor(ctx, pp, torch, spec, Rb, Jb, batch, cases, meta):
-    """run both correctors on one residual tensor, emit model cases per block, run the law checker"""
+def corrector_tensor(ctx, pp, torch, spec, Rb, Jb, batch, cases, meta, layR='contig', layJ='contig', form='kw'):
+    """run the history of both correctors on one pair of tensors, emit model cases per block for the LATER call of
+    each corrector, run the law checker"""
     label, kind, p1, p2, graph = spec
     nb, d, p = len(Rb), len(Rb[0]), len(Jb[0][0])
-    Rt = torch.tensor(Rb, dtype=torch.float64).reshape(tuple(batch) + (d,))
-    Jt = torch.tensor(Jb, dtype=torch.float64).reshape(nb * d, p)
-    Rb = Rt.reshape(nb, d).tolist()
-    xs, g1s, g2s = grads_of(pp, torch, spec, Rt)
-    base = dict(kind='corrector', spec=list(spec), R=Rb, J=Jb, batch=list(batch))
+    Rb = torch.tensor(Rb, dtype=torch.float64).reshape(nb, d).tolist()
+    base = dict(kind='corrector', spec=list(spec), R=Rb, J=Jb, batch=list(batch), layR=layR, layJ=layJ, form=form)
+    h, finds = judge_history(pp, torch, spec, Rb, Jb, batch, layR, layJ, form)
+    ctx.count('corrector-layout:R=%s' % ('contig' if h['contigR'] else layR))
+    ctx.count('corrector-layout:J=%s' % layJ)
+    ctx.count('corrector-form:%s' % form)
+    xs, g1s, g2s = h['grads']
+    for key, text, cname in finds:
+        if key.startswith('mutation:') or key.endswith(':reuse') or key.endswith(':autograd-raises'):
+            ctx.violation(key, text, dict(base, corrector=cname, key=key))
     # oracle hypothesis: autograd's g1, g2 are the true derivatives
     true2 = []
     for i in range(nb):
@@ -608,17 +855,14 @@ def corrector_tensor(ctx, pp, torch, spec, Rb, Jb, batch, cases, meta):
     if not all(math.isfinite(v) for v in g1s + (g2s or [])):
         ctx.mismatch('corrector-grads', base)        # the model's g1, g2 are real numbers
         return
-    outs = {}
+    outs = h['outs']
     for cname in ('FastTriggs', 'Triggs'):
-        out = run_corrector(pp, torch, spec, cname, Rt, Jt)
-        outs[cname] = out
-        ctx.traces += 1
+        out = outs[cname]
+        ctx.traces += 2
         if out[0] == 'raises':
             ctx.case(('corr', cname, label, repr(Rb)), nontrivial=True, branch='%s:%s:raises' % (cname, label))
             m = dict(base, corrector=cname, error=out[1], key='%s.forward:raises' % cname)
             ctx.mismatch('corrector-raises', m)                     # the model returns for every kernel
-            ctx.violation('%s.forward:raises' % cname,
-                          '%s(%s) raised RuntimeError(%s) instead of returning (R\', J\')' % (cname, label, out[1][:80]), m)
             continue
         Rp, Jp = out
         for i in range(nb):
@@ -648,11 +892,25 @@ def corrector_tensor(ctx, pp, torch, spec, Rb, Jb, batch, cases, meta):
                 comps = [(0, 1.0, 0.0)] + [(1 + k, Rp[i][k], K_EPS * EPS * sR + 1e-300) for k in range(d)]
                 comps += [(1 + d + k * p + l, Jp[i][k][l], K_EPS * EPS * sJ + 1e-300) for k in range(d) for l in range(p)]
             cases.append(dict(idx=idx, lets=lets, expr=expr, comps=comps))
-    for cname in ('FastTriggs', 'Triggs'):
-        if outs[cname][0] == 'raises':
-            continue
-        for key, text in law_check(spec, cname, Rb, Jb, outs[cname], outs['FastTriggs'], g2s):
+    for key, text, cname in finds:
+        if not (key.startswith('mutation:') or key.endswith(':reuse') or key.endswith(':autograd-raises')):
             ctx.violation(key, text, dict(base, corrector=cname, key=key))
+
+
+def empty_and_alias_checks(ctx, pp, torch):
+    """tensors of shape (0, d) / (0,): kernels and correctors return empty tensors of the same shapes"""
+    for cname, kname, d, p in [('FastTriggs', 'Huber', 2, 3), ('Triggs', 'Huber', 3, 1), ('Triggs', 'Sq', 2, 2), ('FastTriggs', 'Cauchy', 1, 1), ('Triggs', 'Scale', 4, 2)]:
+        c = dict(kind='empty', corrector=cname, kernel=kname, d=d, p=p)
+        ctx.case(('empty', cname, kname, d, p), nontrivial=False, branch='%s:empty' % cname)
+        why = replay(ctx, c)
+        if why:
+            ctx.violation('%s.forward:empty' % cname, why, c)
+    for kid in range(7):
+        c = dict(kind='empty', kid=kid)
+        ctx.case(('empty', kid), nontrivial=False, branch='kernel-layout:empty')
+        why = replay(ctx, c)
+        if why:
+            ctx.violation('kernel:%s:empty' % KNAMES[kid], why, c)
 
 
 def run_correctors(ctx, pp, torch):
@@ -683,12 +941,20 @@ def run_correctors(ctx, pp, torch):
             nb *= s
         kinds = [rng.choice(['gauss', 'gauss', 'dyadic', 'zero', 'axis', 'big', 'small']) for _ in range(nb)]
         plan.append((rng.choice(pool), d, rng.randint(1, 4 if d <= 3 else 2), batch, kinds))
-    for (which, d, p, batch, kinds) in plan:
+    for n, (which, d, p, batch, kinds) in enumerate(plan):
         spec = kernel_spec(rng, which)
         thr = abs(spec[2]) if which == 'Huber' else 1.0
         Rb = [gen_block(rng, d, kd, thr) for kd in kinds]
         Jb = [[[dy(rng, 3, 4) if rng.random() < 0.5 else rng.gauss(0, 2) for _ in range(p)] for _ in range(d)] for _ in kinds]
-        corrector_tensor(ctx, pp, torch, spec, Rb, Jb, batch, cases, meta)
+        # memory layouts and call forms rotate: all 16 (R layout, J layout) pairs within the first 16 tensors
+        layJ, layR, form = LAYOUTS[n % 4], LAYOUTS[(n // 4) % 4], FORMS[n % len(FORMS)]
+        if layJ == 'expanded':                   # one row, expand()ed to all N d rows (stride 0)
+            Jb = [[list(Jb[0][0]) for _ in range(d)] for _ in kinds]
+        if layR == 'expanded' and len(Rb) >= 2 and len(batch) >= 1:
+            nz = [r for r in Rb if any(r)] or Rb
+            Rb = [list(nz[0]) for _ in kinds]
+        corrector_tensor(ctx, pp, torch, spec, Rb, Jb, batch, cases, meta, layR, layJ, form)
+    empty_and_alias_checks(ctx, pp, torch)
     # regression: the witnesses of the repaired defects 298dcfc (R dropped; also reached through rounding noise with
     # the built-in Tolerant kernel) and af4d69c (constant slope)
     for spec, Rw, Jw in WITNESSES:
@@ -710,8 +976,42 @@ def replay(ctx, c):
     if kind == 'kernel-neg':
         out, how = impl_kernel_point(pp, torch, c['kid'], c['p1'], c['p2'], c['x'])
         return ('%s(%r)(%r) returned %r' % (KNAMES[c['kid']], c['p1'], c['x'], out[1])) if how == 'value' else None
+    if kind == 'kernel-tensor' or (kind == 'kernel-value' and c.get('tensor')):
+        t = c.get('tensor') or c
+        kid = t['kid']
+        k = make_kernel(pp, kid, t['p1'], t['p2'])
+        ys, finds = kernel_tensor(pp, torch, k, KNAMES[kid], t['xs'], tuple(t['shape']), t['lay'])
+        bad = [text for key, text in finds if c.get('key') in (None, key)]
+        if ys is not None and c.get('key') is None:
+            g1s, g2s = autograd12(torch, k, t['xs'])
+            for j in ([c['j']] if 'j' in c else range(len(ys))):
+                if not all(math.isfinite(v) for v in (ys[j], g1s[j], 0.0 if g2s is None else g2s[j])):
+                    bad.append('%s(%r,%r)(%r) = %r, slopes %r %r: not finite' % (KNAMES[kid], t['p1'], t['p2'], t['xs'][j], ys[j], g1s[j], None if g2s is None else g2s[j]))
+                    continue
+                why = kernel_law(kid, t['p1'], t['p2'], t['xs'][j], ys[j], g1s[j], None if g2s is None else g2s[j])
+                if why:
+                    bad.append(why)
+        return '; '.join(bad) if bad else None
+    if kind == 'empty':
+        if 'kid' in c:
+            kid = c['kid']
+            k = make_kernel(pp, kid, 1.0, -1.0 if kid == 5 else 0.0)
+            try:
+                y = k(torch.zeros(0, dtype=torch.float64))
+                return None if tuple(y.shape) == (0,) else '%s.forward on an empty tensor returned shape %s' % (KNAMES[kid], tuple(y.shape))
+            except Exception as e:  # noqa
+                return '%s.forward on an empty tensor raised %r' % (KNAMES[kid], e)
+        k = user_kernel(torch, c['kernel']) if c['kernel'] in USER else make_kernel(pp, KNAMES.index(c['kernel']), 1.0 if c['kernel'] != 'Scale' else 0.5, 0.0)
+        R, J = torch.zeros(0, c['d'], dtype=torch.float64), torch.zeros(0, c['p'], dtype=torch.float64)
+        try:
+            out = as_blocks(torch, getattr(pp.optim.corrector, c['corrector'])(k)(R=R, J=J), R, J)
+        except Exception as e:  # noqa
+            out = ('raises', repr(e))
+        return '%s(%s) on R of shape (0, %d), J of shape (0, %d): %s' % (c['corrector'], c['kernel'], c['d'], c['p'], out[1]) if out[0] == 'raises' else None
     if kind == 'kernel-value':
         out, how = impl_kernel_point(pp, torch, c['kid'], c['p1'], c['p2'], c['x'])
+        if how.startswith('autograd-raises'):
+            return 'the kernel returns %r but is not differentiable: %s' % (out[1], how)
         if how != 'value':
             return 'kernel raised (%s) on valid parameters / non-negative input' % how if c['x'] >= 0 else None
         return kernel_law(c['kid'], c['p1'], c['p2'], c['x'], out[1], out[2], out[3] if c['kid'] != 6 else None)
@@ -722,21 +1022,9 @@ def replay(ctx, c):
         return 'rho(%r)=%r > rho(%r)=%r' % (c['x'], y[0], c['x2'], y[1]) if y[1] < y[0] - 4 * ty else None
     if kind == 'corrector':
         spec = tuple(c['spec'])
-        Rb, Jb = c['R'], c['J']
-        d, p = len(Rb[0]), len(Jb[0][0])
-        Rt = torch.tensor(Rb, dtype=torch.float64).reshape(tuple(c['batch']) + (d,))
-        Jt = torch.tensor(Jb, dtype=torch.float64).reshape(len(Rb) * d, p)
-        bad = []
-        g2s = grads_of(pp, torch, spec, Rt)[2]
-        fast = run_corrector(pp, torch, spec, 'FastTriggs', Rt, Jt)
-        for cname in ([c['corrector']] if c.get('corrector') else ['FastTriggs', 'Triggs']):
-            out = fast if cname == 'FastTriggs' else run_corrector(pp, torch, spec, cname, Rt, Jt)
-            if out[0] == 'raises':
-                bad.append('%s raised: %s' % (cname, out[1]))
-            elif c.get('key', '').endswith(':raises'):
-                pass
-            else:                     # a replay names one clause (key): other, separately recorded, failures do not count
-                bad += [t for k, t in law_check(spec, cname, Rb, Jb, out, fast, g2s) if c.get('key') in (None, k)]
+        h, finds = judge_history(pp, torch, spec, c['R'], c['J'], tuple(c['batch']), c.get('layR', 'contig'), c.get('layJ', 'contig'), c.get('form', 'kw'))
+        # a replay names one clause (key) and one corrector: other, separately recorded, failures do not count
+        bad = [text for key, text, cname in finds if c.get('key') in (None, key) and c.get('corrector') in (None, cname)]
         return '; '.join(bad) if bad else None
     return None
 
